@@ -78,6 +78,47 @@ class Names:
     def name(self, i):
         return self.rev[i] if 0 <= i < len(self.rev) else "?%d" % i
 
+    def opq(self, text):
+        """number of an uninterpreted constant (string, char, flonum, bignum, vector, quoted pair), by its written form"""
+        if not hasattr(self, "oids"):
+            self.oids, self.otext = {}, []
+        k = opq_key(text)
+        if k not in self.oids:
+            self.oids[k] = len(self.otext)
+            self.otext.append(text)
+        return self.oids[k]
+
+    def opq_text(self, i):
+        t = getattr(self, "otext", [])
+        return t[i] if 0 <= i < len(t) else "?opq%d" % i
+
+
+def opq_key(text):
+    """written form of a constant, insensitive to how the s-expression tools split it"""
+    try:
+        return " ".join(sx_str(y) for y in sx_parse_all(text))
+    except (ValueError, IndexError):
+        return text
+
+
+class Const:
+    """a constant of the surface language that the model does not interpret (string, character, flonum, bignum, vector):
+    `text` is its Scheme spelling, which is also how `write` prints it"""
+    def __init__(self, text):
+        self.text = text
+
+    def __repr__(self):
+        return "Const(%r)" % self.text
+
+    def __eq__(self, o):
+        return isinstance(o, Const) and o.text == self.text
+
+    def __hash__(self):
+        return hash(self.text)
+
+    def immediate(self):
+        return self.text.startswith("#\\")          # characters are immediates; the others are heap objects
+
 
 class Unsupported(Exception):
     pass
@@ -91,7 +132,21 @@ def wire_lit(l, names):
         return [k]
     if k == "sym":
         return ["sym", str(names.id(l[1]))]
+    if k == "node":                                      # a SEXP_LIT node (harness PROGQ / this file's analysis of quote)
+        if l[1][0] == "node":
+            raise Unsupported("nested literal node")
+        return ["node", wire_lit(l[1], names)]
+    if k == "other":                                     # uninterpreted constant, identified by its written form
+        if str(l[1]).startswith("#<"):
+            raise Unsupported("unwritable object " + sx_str(l)[:40])      # e.g. a syntactic closure as the name of a box
+        return ["opq", str(names.opq(" ".join(sx_str(y) for y in l[1:])))]
     raise Unsupported("literal " + sx_str(l))
+
+
+def raw_object_lit(a):
+    """(lit (other X)) that is neither a node nor an immediate: a string / flonum / bignum / vector standing bare in the AST"""
+    return (isinstance(a, list) and len(a) == 2 and a[0] == "lit" and isinstance(a[1], list) and a[1] and a[1][0] == "other"
+            and not str(a[1][1]).startswith("#\\"))
 
 
 def wire_ast(a, names):
@@ -106,6 +161,10 @@ def wire_ast(a, names):
     if k == "cnd":
         return ["cnd"] + [wire_ast(x, names) for x in a[1:4]]
     if k == "seq":
+        # vm.c:238 generate_seq skips a non-final element unless it is a pointer that is not a literal NODE: a bare string /
+        # flonum / bignum / vector there is generated and DROPped, where the model (is_lit, shared with C05's proofs) skips it
+        if any(raw_object_lit(x) for x in a[1:-1]):
+            raise Unsupported("bare constant object as a non-final sequence element")
         return ["seq"] + [wire_ast(x, names) for x in a[1:]]
     if k == "lam":
         _, lid, ps, rest, ls, sv, fv, body = a
@@ -273,6 +332,8 @@ def scm(x):
         return "#t"
     if x is False:
         return "#f"
+    if isinstance(x, Const):
+        return x.text
     return str(x)
 
 
@@ -453,20 +514,14 @@ def analyze(x, env, user_globals):
         return ("lit", ["bool", "1" if x else "0"])
     if isinstance(x, int):
         return ("lit", ["int", str(x)])
+    if isinstance(x, Const):
+        return ("lit", ["other", x.text])                # self-evaluating: stands bare in the AST (eval.c:1229-1234)
     if isinstance(x, str):
         return ("ref", x, lookup(x))
     h = x[0]
     if h == "quote":
-        d = x[1]
-        if d == []:
-            return ("lit", ["nil"])
-        if isinstance(d, bool):
-            return ("lit", ["bool", "1" if d else "0"])
-        if isinstance(d, int):
-            return ("lit", ["int", str(d)])
-        if isinstance(d, str):
-            return ("lit", ["sym", d])
-        raise Unsupported("quoted datum")
+        # eval.c:1151-1160: (quote d) is ALWAYS a literal node, also for #f, (), 0 ...; a bare #f is the immediate
+        return quoted(x[1])
     if isinstance(h, str) and lookup(h) is None and h not in user_globals:
         if h == "if":
             return ("cnd", analyze(x[1], env, user_globals), analyze(x[2], env, user_globals),
@@ -512,6 +567,39 @@ def analyze(x, env, user_globals):
         if h in PRIMS and len(x) - 1 == PRIMS[h]:
             return ("op", h, [analyze(a, env, user_globals) for a in x[1:]])
     return ("app", analyze(h, env, user_globals), [analyze(a, env, user_globals) for a in x[1:]])
+
+
+def quoted(d):
+    """SPEC-side meaning of (quote d): an atom is a literal node; a pair is built from its quoted parts (pairs are immutable
+    and eq? is never asked about them, so a fresh pair per evaluation is not observable)"""
+    if d == []:
+        return ("lit", ["node", ["nil"]])
+    if isinstance(d, bool):
+        return ("lit", ["node", ["bool", "1" if d else "0"]])
+    if isinstance(d, int):
+        return ("lit", ["node", ["int", str(d)]])
+    if isinstance(d, Const):
+        return ("lit", ["node", ["other", d.text]])
+    if isinstance(d, str):
+        return ("lit", ["node", ["sym", d]])
+    if isinstance(d, list):
+        if "." in d:
+            i = d.index(".")
+            out, d = quoted(d[i + 1]), d[:i]
+        else:
+            out = quoted([])
+        for el in reversed(d):
+            out = ("op", "cons", [quoted(el), out])
+        return out
+    raise Unsupported("quoted datum")
+
+
+def has_quoted_pair(x):
+    if isinstance(x, list):
+        if len(x) == 2 and x[0] == "quote":
+            return isinstance(x[1], list) and bool(x[1])
+        return any(has_quoted_pair(y) for y in x)
+    return False
 
 
 def analyze_seq(forms, env, ug):
@@ -634,6 +722,7 @@ def program_to_model(forms, names):
 
 
 def model_value_to_text(s, names):
+    s = re.sub(r"opq:(\d+);", lambda m: names.opq_text(int(m.group(1))), s)
     return re.sub(r"sym:(\d+)", lambda m: names.name(int(m.group(1))), s)
 
 
@@ -1326,6 +1415,177 @@ def nary_family():
     return out
 
 
+
+# ------------------------------------------------------------------ round 3 families
+
+class GenQ(Gen):
+    """Gen with BOTH spellings of constants: an integer / boolean leaf is written bare (an immediate in the AST) or quoted
+    (a literal node: what the optimisation passes test with sexp_litp).  props/C05.py keeps using Gen itself."""
+    def int_(self, env, d):
+        x = super().int_(env, d)
+        if isinstance(x, int) and not isinstance(x, bool) and self.rng.random() < 0.35:
+            return Q(x)
+        return x
+
+    def bool_(self, env, d):
+        x = super().bool_(env, d)
+        if isinstance(x, bool) and self.rng.random() < 0.5:
+            return Q(x)
+        return x
+
+
+# every constant in both spellings where it has two: (name, surface expression, is an integer)
+CONSTANTS = [
+    ("false", False, False), ("q-false", Q(False), False), ("true", True, False), ("q-true", Q(True), False),
+    ("q-nil", NIL, False), ("zero", 0, True), ("q-zero", Q(0), True), ("five", 5, True), ("q-five", Q(5), True),
+    ("q-sym", Q("sym"), False), ("q-pair", Q([1, ".", 2]), False), ("q-list", Q([1, 2]), False),
+    ("vector", Const("#(1)"), False), ("q-vector", Q(Const("#(1)")), False),
+    ("string", Const('"str"'), False), ("q-string", Q(Const('"str"')), False),
+    ("bignum", Const("123456789012345678901234567890"), False), ("q-bignum", Q(Const("123456789012345678901234567890")), False),
+    ("flonum", Const("1.5"), False), ("q-flonum", Q(Const("1.5")), False),
+    ("char", Const("#\\a"), False), ("q-char", Q(Const("#\\a")), False),
+]
+K = "%K%"
+YN = [Q("y"), Q("n")]
+# position classes of a CONSTANT (placeholder K); `a` is an assignable integer variable (1) of the enclosing procedure.
+# simplify.c folds a constant test, inlines a never-assigned let variable bound to a constant (inside a procedure only) and
+# drops constant statements; analyze() wraps quoted data in literal nodes; generate_seq / generate_drop_prev skip them.
+CONST_POSITIONS = {
+    "test-if": [["if", K] + YN],
+    "test-if-one-armed": [["if", K, ["set!", "a", 50]], "a"],
+    "test-if-nested": [["if", ["if", K, False, True], 1, 2]],
+    "test-if-in-operand": [["cons", ["if", K, 1, 2], NIL]],
+    "test-cond": [["cond", [K, 1], ["else", 2]]],
+    "test-cond-2nd": [["cond", [["=", "a", 0], 0], [K, 1], ["else", 2]]],
+    "test-cond-arrow": [["cond", [K, "=>", ["lambda", ["t"], ["cons", "t", 1]]], ["else", 7]]],
+    "test-cond-nobody": [["cond", [K], ["else", 7]]],
+    "test-when": [["when", K, ["set!", "a", 50]], "a"],
+    "test-unless": [["unless", K, ["set!", "a", 50]], "a"],
+    "test-and-first": [["and", K, 1]],
+    "test-and-last": [["and", 1, K]],
+    "test-and-middle": [["and", "a", K, 3]],
+    "test-or-first": [["or", K, 2]],
+    "test-or-last": [["or", False, K]],
+    "test-do": [["do", [["i", 0, ["+", "i", 1]]], [["if", [">", "i", 1], True, K], "i"]]],
+    "test-do-or": [["do", [["i", 0, ["+", "i", 1]]], [["or", K, [">", "i", 1]], "i"]]],
+    "case-key": [["case", K, [[0], Q("zero")], [["sym"], Q("s")], ["else", Q("other")]]],
+    "operand": [["cons", K, NIL]],
+    "operand-2nd": [["cons", 1, K]],
+    "operand-call": [[["lambda", ["z"], ["cons", "z", "z"]], K]],
+    "operator": [[K, 1]],
+    "arg-param-test": [[["lambda", ["p"], ["if", "p"] + YN], K]],
+    "arg-param-2nd-test": [[["lambda", ["q", "p"], ["if", "p", "q", Q("n")]], "a", K]],
+    "arg-rest-test": [[["lambda", ["q", ".", "r"], ["if", ["car", "r"], "q", Q("n")]], "a", K]],
+    "arg-global-proc-test": [["define", ["tst", "p"], ["if", "p"] + YN], ["tst", K]],
+    "let-test": [["let", [["flag", K]], ["if", "flag", ["cons", Q("yes"), "a"], ["cons", Q("no"), "a"]]]],
+    "let-test-2nd-of-two": [["let", [["u", "a"], ["flag", K]], ["if", "flag", ["cons", Q("yes"), "u"], ["cons", Q("no"), "u"]]]],
+    "let-assigned-test": [["let", [["flag", K]], ["if", ["=", "a", 99], ["set!", "flag", 1]], ["if", "flag", 1, 2]]],
+    "let-closure-test": [["let", [["off", K], ["acc", NIL]],
+                          [["lambda", ["b"], ["if", "off", ["set!", "acc", ["cons", Q("bad"), "acc"]], ["set!", "acc", ["cons", ["+", "a", "b"], "acc"]]], "acc"], 2]]],
+    "let-closure-escaping-test": [["define", ["h"], ["let", [["off", K], ["acc", NIL]],
+                                                      ["lambda", ["x"], ["lambda", ["b"], ["if", "off", ["set!", "acc", ["cons", Q("bad"), "acc"]],
+                                                                                           ["set!", "acc", ["cons", ["+", "x", "b"], "acc"]]], "acc"]]]],
+                                  [[["h"], 1], 2]],
+    "let-value": [["let", [["u", K]], ["cons", "u", "a"]]],
+    "let*-test": [["let*", [["u", K], ["w", "u"]], ["if", "w", 1, 2]]],
+    "letrec-init-test": [["letrec", [["u", K]], ["if", "u", 1, 2]]],
+    "named-let-init": [["let", "lp", [["x", K], ["n", 0]], ["if", ["<", "n", 1], ["lp", "x", ["+", "n", 1]], ["if", "x", Q("t"), Q("f")]]]],
+    "do-init": [["do", [["x", K], ["i", 0, ["+", "i", 1]]], [[">", "i", 0], ["if", "x", Q("t"), Q("f")]]]],
+    "set-value-test": [["set!", "a", K], ["if", "a", Q("t"), Q("f")]],
+    "set-value-returned": [["set!", "a", K], "a"],
+    "define-init-test": [["define", "k", K], ["if", "k", Q("t"), Q("f")]],
+    "define-init-returned": [["define", "k", K], "k"],
+    "define-init-closure-test": [["define", "k", K], ["define", ["g"], ["if", "k", 1, 2]], ["g"]],
+    "seq-stmt": [["begin", K, 1]],
+    "seq-stmt-body": [K, "a"],
+    "seq-stmt-before-set": [["begin", K, ["set!", "a", 2], "a"]],
+    "seq-stmt-after-set": [["begin", ["set!", "a", 2], K, "a"]],
+    "seq-stmt-in-branch": [["if", ["=", "a", 1], ["begin", K, Q("one")], Q("other")]],
+    "value": [K],
+    "value-then": [["if", ["=", "a", 1], K, 0]],
+    "value-else": [["if", ["=", "a", 0], 0, K]],
+    "value-from-closure": [[["lambda", [], K]]],
+}
+CONST_POSITIONS_INT = {           # only for integer constants: operands of folded / unfolded arithmetic and comparisons
+    "arith-operand": [["+", K, 1]],
+    "arith-operand-2nd": [["*", 2, K]],
+    "arith-with-variable": [["+", "a", K]],
+    "arith-all-constant-test": [["if", ["=", K, 0]] + YN],
+    "compare-constant-test": [["if", ["<", K, 1]] + YN],
+    "arith-nary": [["+", 1, K, "a"]],
+}
+CONST_CTXTS = ["proc", "top", "lambda", "nested"]
+
+
+def subst_k(x, k):
+    if x == K:
+        return k
+    if isinstance(x, list):
+        return [subst_k(y, k) for y in x]
+    return x
+
+
+def const_case(body, const, ctxt):
+    body = subst_k(body, const)
+    pre = [f for f in body if isinstance(f, list) and f and f[0] == "define" and isinstance(f[1], list) and f[1][0] in ("h", "tst")]
+    body = [f for f in body if f not in pre]
+    if ctxt == "top":
+        return pre + [["define", "a", 1]] + body
+    if ctxt == "proc":
+        return pre + [["define", ["f", "a"]] + body, lst(["f", 1], 99)]
+    if ctxt == "lambda":
+        return pre + [lst([["lambda", ["a"]] + body, 1], 99)]
+    if ctxt == "nested":                                # the body one lambda below the binder of `a`
+        return pre + [["define", ["f", "a"], [["lambda", ["z"]] + body, 7]], lst(["f", 1], 99)]
+    raise ValueError(ctxt)
+
+
+def const_family(rng=None, quick=False):
+    """every constant x both spellings x every position class x context.  quick: context `proc` in full (simplify.c only
+    inlines let variables inside a lambda), the false / nil / zero constants in every context, the rest sampled."""
+    out = []
+    for cname, cexp, isint in CONSTANTS:
+        for table in (CONST_POSITIONS, CONST_POSITIONS_INT if isint else {}):
+            for pos, body in table.items():
+                for ctxt in CONST_CTXTS:
+                    if quick and ctxt != "proc" and cname not in ("false", "q-false", "q-nil", "q-zero", "q-true") and rng.random() < 0.9:
+                        continue
+                    out.append(("const/%s/%s/%s" % (pos, ctxt, cname), const_case(body, cexp, ctxt)))
+    return out
+
+
+def argeval_family():
+    """each operand of an n-ary call (n = 1..4) in turn is the ONE effectful operand: it increments a counter and returns a
+    distinct value; the result lists the parameters as the callee saw them and the counter: every operand is evaluated
+    exactly once and bound to its own parameter, whatever the order.  Callees: lambda literal, global procedure, procedure
+    with rest parameter (used / unused), closure over a variable, inlined primitive, apply."""
+    out = []
+    ps = ["p", "q", "r", "s"]
+    for n in (1, 2, 3, 4):
+        for k in range(n):
+            args = [["begin", ["set!", "cnt", ["+", "cnt", 1]], 100 + i] if i == k else 10 + i for i in range(n)]
+            pre = [["define", "cnt", 0]]
+            callees = {
+                "lambda": (pre, [["lambda", ps[:n], lst(*ps[:n])]] + args),
+                "global": (pre + [["define", ["g"] + ps[:n], lst(*ps[:n])]], ["g"] + args),
+                "rest-used": (pre + [["define", ["g", ps[0], ".", "more"], ["cons", ps[0], "more"]]], ["g"] + args),
+                "rest-unused": (pre + [["define", ["g", ps[0], ".", "more"], ps[0]]], ["g"] + args),
+                "rest-only": (pre + [["define", ["g", ".", "more"], "more"]], ["g"] + args),
+                "closure": (pre + [["define", ["mk", "c"], ["lambda", ps[:n], ["cons", "c", lst(*ps[:n])]]]], [["mk", 7]] + args),
+                "apply": (pre + [["define", ["g"] + ps[:n], lst(*ps[:n])]], ["apply", "g"] + args + [NIL]),
+                "boxed-params": (pre + [["define", ["g"] + ps[:n], ["set!", ps[0], ["cons", ps[0], NIL]], [["lambda", [], lst(*ps[:n])]]]], ["g"] + args),
+            }
+            if n == 2:
+                callees["cons"] = (pre, ["cons"] + args)
+                callees["minus"] = (pre, ["-"] + args)
+                callees["greater"] = (pre, [">"] + args)
+            if n >= 3:
+                callees["plus-nary"] = (pre, ["+"] + args)
+            for cn, (defs, call) in callees.items():
+                out.append(("argeval/%s/n%d/k%d" % (cn, n, k), defs + [[["lambda", ["res"], lst("res", "cnt")], call]]))
+    return out
+
+
 FIXED_CASES = [
     ("rest-assigned-F-C03-1", [["define", ["f", "a", ".", "rest"], ["set!", "rest", 5], "a"], ["cons", ["f", 3], ["cons", 2, ["cons", 1, ["quote", []]]]]]),
     ("rest-assigned-extra", [["define", ["f", "a", ".", "rest"], ["set!", "rest", 5], "a"], ["cons", ["f", 3, 4, 5], ["cons", 2, ["quote", []]]]]),
@@ -1355,7 +1615,7 @@ def model_requests(ctx, exe, reqs):
 def check_programs(ctx, h, exe, progs, pair_type_hint=None, outer=True, label="C03", timeout=None):
     """progs: list of (key, forms).  Runs everything; reports through ctx.  Returns list of per-program dicts."""
     texts = [" ".join(scm(f) for f in forms) for _, forms in progs]
-    hdr, answers = h.run(["PROGF " + t for t in texts], timeout=timeout)
+    hdr, answers = h.run(["PROGQ " + t for t in texts], timeout=timeout)
     pair_type = hdr.get("pair-type", 6)
     names = Names()
     mreq, plan = [], []
@@ -1496,7 +1756,12 @@ def judge(ctx, plan, d, viols, label="C03", count=True):
                 continue
             dc = first_diff(mc, i["code"])
             if dc:
-                bad.append(("correspondence:generate", "bytecode differs from the model's generate on %s at %s" % (text[:300], dc),
+                why = ""
+                if re.search(r"\((TAIL-)?CALL \d+\) vs \((TAIL-)?CALL \d+\)", dc):
+                    # the same call compiled as CALL instead of TAIL-CALL (or the reverse) computes the same value: the
+                    # difference is the frame that stays on the stack
+                    why = " [tail-call flag of a call differs: values are unchanged, observable only as stack growth: property C05]"
+                bad.append(("correspondence:generate", "bytecode differs from the model's generate on %s at %s%s" % (text[:300], dc, why),
                             dict(impl_code=sx_str(i["code"])[:1500], model_code=sx_str(mc)[:1500])))
         ent["outer_bad"] = outer_bad
         ent["inner_bad"] = bad
@@ -1670,6 +1935,8 @@ def feature_families(rng, texts, full):
         fams.append(("internal defines / letrec with forward references", fwd_family()))
     if re.search(r"^\(define|\) \(define [a-z0-9]+ ", t) or "set!" in t:
         fams.append(("top-level define / re-define / set! sequences", toplevel_family(rng, 600)))
+    fams.append(("constants in both spellings in every position class", const_family()))
+    fams.append(("exactly-once evaluation and binding of every operand", argeval_family()))
     fams.append(("captured variables in every position class", capture_pos_family()))
     fams.append(("capture patterns", capture_family()))
     fams.append(("closure chains", chain_family()))
@@ -1763,9 +2030,11 @@ def run(ctx):
         progs += fwd_family(rng, 160 if q else None)
         progs += toplevel_family(rng, 120 if q else 3000)
         progs += chain_family(rng, 60 if q else None)
+        progs += const_family(rng, quick=q)
+        progs += argeval_family()
     nrand = 500 if q else 20000
     for i in range(nrand):
-        g = Gen(rng, derived=(i % 2 == 1))
+        g = GenQ(rng, derived=(i % 2 == 1))
         progs.append(("rand-%s#%d" % ("derived" if i % 2 else "core", i), g.program(rng.choice([2, 3, 4]))))
     plan, viols = [], []
     CH = 2500
@@ -1773,7 +2042,7 @@ def run(ctx):
         part = check_programs(ctx, h, exe, progs[lo:lo + CH])
         for e, (k, f) in zip(part, progs[lo:lo + CH]):
             e["forms"] = f
-            e["core_only"] = (k in core_keys and "let" not in k) or k.startswith("rand-core")
+            e["core_only"] = ((k in core_keys and "let" not in k) or k.startswith("rand-core")) and not has_quoted_pair(f)
         plan += part
         judge(ctx, part, d, viols)
     targeted_search(ctx, h, exe, d, plan, viols)
